@@ -78,9 +78,11 @@ def gen_profile(rng, small=False):
             cu = rand_uuid(rng, U16_CHR).hex()
             if used and rng.random() < 0.3:
                 # the SAME characteristic UUID again (legal, e.g. HID Report), other properties / security / value
-                cu = rng.choice(used)
+                cu, p0 = rng.choice(used)
+                if (p0 & (P_NOTIFY | P_INDICATE)) and rng.random() < 0.6:
+                    props = p0      # homonyms that can both be subscribed to
             if len(cu) == 4:
-                used.append(cu)
+                used.append((cu, props))
             ch = {"handle": h, "uuid": cu, "props": props,
                   "sec": rng.choice(SECS), "value": rand_bytes(rng, rand_vlen(rng)).hex(), "descs": []}
             h += 2
@@ -545,6 +547,21 @@ class HistoryGen:
         if not cccds:
             return self.history(n)
         evs = []
+        subs = [c for c in cccds if c["props"] & (P_NOTIFY | P_INDICATE)]
+        if subs and rng.random() < 0.6:
+            # subscribe to EVERY characteristic that can notify / indicate (homonyms in both orders, by request and
+            # by command), update some, disconnect, update each of them, reconnect, update again
+            order = list(subs)
+            rng.shuffle(order)
+            for c in order:
+                both = (c["props"] & P_NOTIFY) and (c["props"] & P_INDICATE)
+                v = (rng.choice([b"\x01\x00", b"\x02\x00"]) if both else
+                     b"\x01\x00" if c["props"] & P_NOTIFY else b"\x02\x00")
+                evs.append({"op": "req", "req": (rng.choice(["Write", "WriteCmd"]), c["handle"], v), "hooks": {}})
+            upd = lambda: [{"op": "set", "handle": c["decl"], "value": rand_bytes(rng, rng.randrange(1, 6)).hex(), "hooks": {}}
+                           for c in rng.sample(order, len(order))]
+            evs += upd()[:2] + [{"op": "disc"}] + upd() + [{"op": "conn"}] + upd()[:2]
+            self.connected, self.mtu = True, 23
         while len(evs) < n:
             c = rng.choice(cccds)
             x = rng.random()
